@@ -87,7 +87,9 @@ func (k *Keeper) NewEVM(
 			}
 
 			metadata := contract.GetMetadata()
-			contracts = append(contracts, corevm.NewCustomPrecompiledContract(common.BytesToAddress(metadata.Address), methods, metadata.Name))
+			cpc := corevm.NewCustomPrecompiledContract(common.BytesToAddress(metadata.Address), methods, metadata.Name)
+			// forward the disabled flag, so a contract marked as disabled rejects every call
+			contracts = append(contracts, cpc.(*corevm.CustomPrecompiledContract).WithDisabled(metadata.Disabled))
 		}
 		evm = evm.WithCustomPrecompiledContracts(contracts...)
 	}
